@@ -10,6 +10,7 @@ open Zio
                  nth {thread}*nth
                  fault_tid(-1 = none) fault_pos fault_code
                  cfault_chunk(-1 = none) cfault_close cfault_code
+                 fix1 fix2 fix3          (1 = the repaired code, see n_f1..n_f3 in Model/MailboxFail.v)
                  nkill mb*nkill   njoin tid*njoin   nsav tid*nsav   main_tid
      thread = 0 nsrc out nin {mb sub}*nin      stage (plugin / loader thread: Mailbox._send_from)
             | 1 mb sub rechunk                 saver  (Saver.save_from)
@@ -57,7 +58,7 @@ let read_net l =
        | nth :: r ->
            let (threads, r) = read_n nth read_thread r in
            (match r with
-            | ft :: fp :: fc :: ck :: cc :: ce :: r ->
+            | ft :: fp :: fc :: ck :: cc :: ce :: f1 :: f2 :: f3 :: r ->
                 let fault = if ft < 0 then None else Some ((nat_of_int ft, nat_of_int fp), nat_of_int fc) in
                 let cfault = if ck < 0 then None else Some ((nat_of_int ck, cc <> 0), nat_of_int ce) in
                 let (kill, r) = read_list r in
@@ -65,7 +66,8 @@ let read_net l =
                 let (sav, r) = read_list r in
                 (match r with
                  | main :: r ->
-                     let nt = { n_fault = fault; n_cfault = cfault; n_kill = kill; n_join = join; n_savers = sav } in
+                     let nt = { n_fault = fault; n_cfault = cfault; n_kill = kill; n_join = join; n_savers = sav;
+                                n_f1 = (f1 <> 0); n_f2 = (f2 <> 0); n_f3 = (f3 <> 0) } in
                      (nt, ninit nt boxes threads, List.length threads, main, r)
                  | _ -> failwith "main")
             | _ -> failwith "faults")
@@ -163,6 +165,35 @@ let handle toks =
       let (nt, st0, n, main, r) = read_net (ints rest) in
       (match r with
        | ns :: sched -> run_net nt st0 n main (take ns sched)
+       | _ -> "BAD")
+  | "netdigest" :: rest ->
+      let (nt, st0, n, main, r) = read_net (ints rest) in
+      Digest.to_hex (Digest.string (Marshal.to_string (nt, st0) [Marshal.No_sharing])) ^ " " ^ string_of_int main
+  | "family" :: "chain" :: rest ->
+      (* family chain fx N lazy relay L caps*L nsav*L ft fp fc ck cc ce *)
+      (match ints rest with
+       | fx :: n :: lz :: relay :: l :: r ->
+           let caps = List.map nat_of_int (take l r) in
+           let nsav = List.map nat_of_int (take l (drop l r)) in
+           (match drop (2 * l) r with
+            | ft :: fp :: fc :: ck :: cc :: ce :: _ ->
+                let fault = if ft < 0 then None else Some ((nat_of_int ft, nat_of_int fp), nat_of_int fc) in
+                let cfault = if ck < 0 then None else Some ((nat_of_int ck, cc <> 0), nat_of_int ce) in
+                let sp = { ch_N = nat_of_int n; ch_caps = caps; ch_nsav = nsav; ch_lazy = (lz <> 0); ch_relay = (relay <> 0) } in
+                let nt = chain_net sp (fx <> 0) fault cfault and st0 = chain_init sp (fx <> 0) fault cfault in
+                Digest.to_hex (Digest.string (Marshal.to_string (nt, st0) [Marshal.No_sharing])) ^ " " ^ string_of_int (int_of_nat (chain_main sp))
+            | _ -> "BAD")
+       | _ -> "BAD")
+  | "family" :: "fan" :: rest ->
+      (* family fan fx N cap lazy side_first savx savy relay ft fp fc ck cc ce *)
+      (match ints rest with
+       | fx :: n :: cap :: lz :: sf :: sx :: sy :: relay :: ft :: fp :: fc :: ck :: cc :: ce :: _ ->
+           let fault = if ft < 0 then None else Some ((nat_of_int ft, nat_of_int fp), nat_of_int fc) in
+           let cfault = if ck < 0 then None else Some ((nat_of_int ck, cc <> 0), nat_of_int ce) in
+           let sp = { fn_N = nat_of_int n; fn_cap = nat_of_int cap; fn_lazy = (lz <> 0); fn_side_first = (sf <> 0);
+                      fn_savx = nat_of_int sx; fn_savy = nat_of_int sy; fn_relay = (relay <> 0) } in
+           let nt = fan_net sp (fx <> 0) fault cfault and st0 = fan_init sp (fx <> 0) fault cfault in
+           Digest.to_hex (Digest.string (Marshal.to_string (nt, st0) [Marshal.No_sharing])) ^ " " ^ string_of_int (int_of_nat (fan_main sp))
        | _ -> "BAD")
   | "netx" :: rest ->
       let (nt, st0, n, main, r) = read_net (ints rest) in
